@@ -42,6 +42,33 @@ def dump_mir():
         return o
 
 
+def dump_mir_bin():
+    """-> MIR text of the command-line crate (src/main.rs ...), cached by the hash of the current tree"""
+    h = C.tree_hash(('src', 'lib/src', 'lib/Cargo.toml', 'Cargo.toml', 'Cargo.lock'))
+    base = os.path.join(C.CACHE, 'mir')
+    out = os.path.join(base, f'mirbin-{h}.txt')
+    with C.Lock('mirbin'):
+        if os.path.exists(out) and os.path.getsize(out) > 1000:
+            return open(out).read()
+        ws = os.path.join(base, 'wsbin')
+        repo = os.path.join(ws, 'repo')
+        os.makedirs(ws, exist_ok=True)
+        rc, o, e, s = C.run(['rsync', '-a', '--delete', '--exclude', 'target', '--exclude', '.git', C.REPO + '/', repo + '/'])
+        if rc != 0:
+            raise C.Inconclusive('rsync failed: ' + e)
+        os.utime(os.path.join(repo, 'src', 'main.rs'))
+        rc, o, e, s = C.run(['cargo', '+nightly', 'rustc', '--offline', '--bin', 'qmluic', '--target-dir', os.path.join(ws, 'target'), '--',
+                             '-Zunpretty=mir', '-C', 'debug-assertions=off', '-C', 'overflow-checks=on'], cwd=repo, timeout=1500)
+        if rc != 0 or len(o) < 1000:
+            raise C.Inconclusive('MIR dump of the bin crate failed:\n' + e[-2000:])
+        for f in os.listdir(base):
+            if f.startswith('mirbin-') and f.endswith('.txt'):
+                os.remove(os.path.join(base, f))
+        with open(out, 'w') as f:
+            f.write(o)
+        return o
+
+
 # ----------------------------------------------------------------------------- parsing
 class Fn:
     def __init__(self, header, name, params, body):
